@@ -192,18 +192,34 @@ func (c *Conn) RunWALTx(spec WALSpec) (res TxResult) {
 	lock := ref.LockPgno(d.PageSize)
 	d.Change++
 	nframes := len(spec.Frames)
+	// generate page contents first so the intended image is known up front
+	pages := make([][]byte, nframes)
+	for i, fs := range spec.Frames {
+		if fs.Pgno == 1 {
+			pages[i] = ref.MakePage1(d.PageSize, spec.NewPageN, true, d.Change, d.RandPage())
+		} else {
+			pages[i] = d.RandPage()
+		}
+	}
+	if d.OnIntent != nil && spec.Outcome == "commit" {
+		im := old.Clone()
+		im.PageSize = d.PageSize
+		for i, fs := range spec.Frames {
+			if fs.Pgno <= spec.NewPageN && fs.Pgno != lock {
+				im.Set(fs.Pgno, pages[i])
+			}
+		}
+		im.Truncate(spec.NewPageN)
+		im.PageN = spec.NewPageN
+		d.OnIntent(im)
+	}
 	for i, fs := range spec.Frames {
 		last := i == nframes-1
 		commit := uint32(0)
 		if last && spec.Outcome == "commit" {
 			commit = spec.NewPageN
 		}
-		var page []byte
-		if fs.Pgno == 1 {
-			page = ref.MakePage1(d.PageSize, spec.NewPageN, true, d.Change, d.RandPage())
-		} else {
-			page = d.RandPage()
-		}
+		page := pages[i]
 		txPages[fs.Pgno] = page
 		fh := w.Frame(fs.Pgno, commit, page)
 		if err := d.step(fmt.Sprintf("wal frame %d pgno %d commit %d", i, fs.Pgno, commit)); err != nil {
